@@ -20,6 +20,20 @@ fn main() {
     main_for("C02", body)
 }
 
+/// Findings of drivers that are outside C02's statement (klippa): identity -> (count, first case).
+/// Reported in the evidence (`observations_not_judged`), never as violations.
+static OBSERVATIONS: Mutex<BTreeMap<String, (u64, Value)>> = Mutex::new(BTreeMap::new());
+
+fn observe_only(identity: String, what: &str, case: Value) {
+    let mut g = OBSERVATIONS.lock().unwrap();
+    let e = g.entry(identity.clone()).or_insert((0, Value::Null));
+    if e.0 == 0 {
+        e.1 = json!({"what": what.chars().take(400).collect::<String>(), "first_case": case});
+        eprintln!("[c02] OBSERVATION (not judged by C02): {identity}: {}", what.chars().take(300).collect::<String>());
+    }
+    e.0 += 1;
+}
+
 struct Agg {
     all: HashSet<u64>,
     nt: HashSet<u64>,
@@ -73,6 +87,11 @@ fn run_cases(run: &Run, label: &str, n: u64, get: &(dyn Fn(u64) -> Value + Sync)
                             run.machinery_error(&format!("bad case {case}: {}", v.what));
                             continue;
                         }
+                        if is_observation_driver(driver) {
+                            *agg.lock().unwrap().counters.entry(format!("{label}.observed_findings")).or_insert(0) += 1;
+                            observe_only(viol_identity(v), &v.what, narrow(case, v.sub));
+                            continue;
+                        }
                         let p = v.panic_info();
                         if v.kind == "panic" && p.is_arith_or_debug_assert() && !p.message.contains("divide by zero") && !p.message.contains("remainder with a divisor of zero") {
                             // overflow / debug-assert class: belongs to C20 (cannot occur in the release profile)
@@ -90,6 +109,11 @@ fn run_cases(run: &Run, label: &str, n: u64, get: &(dyn Fn(u64) -> Value + Sync)
                     );
                     let mut c = narrow(case, f.sub);
                     c["observed"] = json!({"kind": f.kind, "stage": f.stage, "sub": f.sub, "function": f.function});
+                    if is_observation_driver(driver) {
+                        observe_only(id, &what, c);
+                        *agg.lock().unwrap().counters.entry(format!("{label}.observed_findings")).or_insert(0) += 1;
+                        return;
+                    }
                     run.violation(&id, &what, c);
                     *agg.lock().unwrap().counters.entry(format!("{label}.worker_failures")).or_insert(0) += 1;
                 }
@@ -143,6 +167,9 @@ fn body(run: &Run, replay: Option<&Value>) {
     if let Some(case) = replay {
         let c = strip_replay_fields(case);
         run_cases(run, "replay", 1, &|_| c.clone(), &SupOpts { workers: 1, ..opts });
+        for (k, (n, _)) in OBSERVATIONS.lock().unwrap().iter() {
+            println!("replay: observation (not judged by C02) x{n}: {k}");
+        }
         return;
     }
     run.bound("watchdog_cpu_ms_per_call", json!(opts.watchdog_ms));
@@ -171,4 +198,11 @@ fn body(run: &Run, replay: Option<&Value>) {
         run_cases(run, ph.label, ph.n, &*ph.get, &SupOpts { chunk: ph.chunk, ..opts.clone() });
     }
     run.extra("digest_cap_per_case", json!(skdrv::MAX_DIGESTS_PER_CASE));
+    let obs = OBSERVATIONS.lock().unwrap();
+    run.extra(
+        "observations_not_judged",
+        json!({"note": "findings of drivers outside C02's statement (klippa subsetter); judged by C20 in the strict profile when arithmetic",
+               "by_identity": obs.iter().map(|(k, (n, v))| json!({"identity": k, "count": n, "first": v})).collect::<Vec<_>>()}),
+    );
+    run.count("observations_not_judged.distinct", obs.len() as u64);
 }
